@@ -36,6 +36,8 @@ type op struct {
 	Size  int    `json:"size,omitempty"`
 	Seed  uint64 `json:"seed,omitempty"`
 	Parts []int  `json:"parts,omitempty"` // mpu: sizes of the parts
+	First int    `json:"first_part,omitempty"` // mpu: number of the first part minus one (part numbers need not start at 1)
+	Step  int    `json:"part_step,omitempty"`  // mpu: distance between part numbers minus one (nor be contiguous)
 	Chunk []int  `json:"chunks,omitempty"`
 	Frags []int  `json:"frags,omitempty"`
 	Meta  []s3c.KV `json:"meta,omitempty"`
@@ -175,6 +177,9 @@ func upload(cl *s3c.Client, path string, query []s3c.KV, hdr []s3c.KV, payload [
 	return s3c.Do(cl.T, r)
 }
 
+// partNo is the part number used for the pn-th part of a multipart op.
+func partNo(o op, pn int) int { return o.First + 1 + pn*(o.Step+1) }
+
 func runA(c caseA) error { _, err := execA(c); return err }
 
 type stats struct {
@@ -294,7 +299,7 @@ func execA(c caseA) (st stats, err error) {
 				if chunkMode(po.Enc) != "" && chunkMode(po.Enc) != s3c.StreamingSigned {
 					po.Enc = "chunked-signed"
 				}
-				pr, err := upload(pcl, path(k), s3c.Q("partNumber", fmt.Sprint(pn+1), "uploadId", ini.UploadId), nil, pb, po)
+				pr, err := upload(pcl, path(k), s3c.Q("partNumber", fmt.Sprint(partNo(o, pn)), "uploadId", ini.UploadId), nil, pb, po)
 				if err != nil {
 					return st, fmt.Errorf("SETUP: transport: %v", err)
 				}
@@ -305,9 +310,9 @@ func execA(c caseA) (st stats, err error) {
 				}
 				et := s3c.ETag(pr.Header.Get("ETag"))
 				if et != md5hex(pb) {
-					return st, fmt.Errorf("%s: UploadPart %d answered ETag %s, content MD5 is %s", where, pn+1, et, md5hex(pb))
+					return st, fmt.Errorf("%s: UploadPart %d answered ETag %s, content MD5 is %s", where, partNo(o, pn), et, md5hex(pb))
 				}
-				parts = append(parts, s3c.Part{PartNumber: pn + 1, ETag: et})
+				parts = append(parts, s3c.Part{PartNumber: partNo(o, pn), ETag: et})
 				s := md5.Sum(pb)
 				md5s = append(md5s, s[:]...)
 			}
@@ -354,6 +359,12 @@ func execA(c caseA) (st stats, err error) {
 				continue
 			}
 			if !r.OK() {
+				if r.Code() == "NoSuchKey" {
+					// the model says the source exists: does the gateway agree when asked directly?
+					if g, err := cl.Call("HEAD", path(s), nil, nil, nil); err == nil && g.Status == 200 {
+						return st, fmt.Errorf("%s: CopyObject from %q answers NoSuchKey although HEAD of that key answers 200", where, c.Keys[s])
+					}
+				}
 				ev.Class("upload-refused:copy:" + r.Code())
 				continue
 			}
@@ -716,6 +727,11 @@ func opGen(thorough bool) *rapid.Generator[op] {
 				}
 				if o.Parts[len(o.Parts)-1] == 0 {
 					o.Parts[len(o.Parts)-1] = 1
+				}
+				o.First = rapid.SampledFrom([]int{0, 0, 1, 6, 9997}).Draw(t, "first_part")
+				o.Step = rapid.SampledFrom([]int{0, 0, 1, 40}).Draw(t, "part_step")
+				if o.First+1+(len(o.Parts)-1)*(o.Step+1) > 10000 {
+					o.Step = 0
 				}
 			}
 			if o.Kind == "copy" {
